@@ -107,6 +107,12 @@ def run(prog: Program, rep: Report, tier: str):
     rule_bin(prog, rep, "C07.bin")
     from .lints import rule_stable_bijections
     rule_stable_bijections(prog, rep, "C07.stable")
+    # every method runs inside the class-creation wrapper: it must hand the method's result back unchanged (no cast,
+    # no rounding), otherwise no class computes its documented function
+    from .c13 import rule_wrapper
+    rep.rule("C07.wrapper", "the wrapper installed around every bijection method returns method(unwrap(bijection), "
+                            "checked x, checked condition) unchanged", minimum=1)
+    rule_wrapper(prog, rep, "C07.wrapper")
     if tier == "thorough":
         from ..audit import audit_generic
         audit_generic(prog, rep, "C07")
@@ -215,8 +221,8 @@ def _neg_mul(a, b):
     return mk_mul((C(-1), a, b))
 
 
-def rule_tri(prog, rep):
-    rep.rule("C07.tri", "TriangularAffine: A = diag(softplus-reparameterised diagonal) + strictly lower "
+def rule_tri(prog, rep, R="C07.tri"):
+    rep.rule(R, "TriangularAffine: A = diag(softplus-reparameterised diagonal) + strictly lower "
                         "(lower=True) / strictly upper (lower=False) triangle of the given matrix; the solver "
                         "in both inverse methods uses the same polarity", minimum=4)
     c = prog.cls("flowjax.bijections.affine.TriangularAffine")
@@ -230,19 +236,19 @@ def rule_tri(prog, rep):
            "    self.triangular = wrappers.Lambda(_to_triangular, diag=wrappers.BijectionReparam(jnp.diag(arr), SoftPlus()), arr=arr)\n"
            "    self.lower = lower\n")
     want, _ = eval_ref_method(prog, c, ref, [LOC, ARR], {"lower": LOWER}, want_fields=True)
-    compare(rep, "C07.tri", site, "TriangularAffine.triangular", f.get("triangular", ("unknown", "missing")),
+    compare(rep, R, site, "TriangularAffine.triangular", f.get("triangular", ("unknown", "missing")),
             want["triangular"], "triangular")
-    compare(rep, "C07.tri", site, "TriangularAffine.lower", f.get("lower", ("unknown", "missing")), want["lower"], "lower")
+    compare(rep, R, site, "TriangularAffine.lower", f.get("lower", ("unknown", "missing")), want["lower"], "lower")
     for m in ("inverse", "inverse_and_log_det"):
         t = method_term(prog, c, m)
         calls = [s for s in walk(t) if s[0] == "call" and s[1] == ("ext", "jax.scipy.linalg.solve_triangular")]
         ms = method_site(prog, c, m)
         if not calls:
-            rep.undecided("C07.tri", ms, f"TriangularAffine.{m}:solver", "no solve_triangular call found")
+            rep.undecided(R, ms, f"TriangularAffine.{m}:solver", "no solve_triangular call found")
             continue
         kw = dict(calls[0][3])
         rep.check(kw.get("lower") == ("attr", SELF, "lower") and kw.get("a") == ("attr", SELF, "triangular"),
-                  "C07.tri", ms, f"TriangularAffine.{m}:solver-polarity",
+                  R, ms, f"TriangularAffine.{m}:solver-polarity",
                   "solve_triangular(self.triangular, ..., lower=self.lower)",
                   f"solver call is {show(calls[0], 200)}; expected a=self.triangular, lower=self.lower")
 
